@@ -76,6 +76,7 @@ def insertConn (c : Conn) : List Conn → List Conn
   | [] => [c]
   | d :: ds => if c.id ≤ d.id then c :: d :: ds else d :: insertConn c ds
 
+
 def hasServerSide (c : Conn) : Bool := c.kind != .fsrv
 def srvOpen (c : Conn) : Bool := hasServerSide c && c.cl.isOpen
 
@@ -111,8 +112,15 @@ def statusLine (s : DS) : String :=
     (if c.kind == .fsrv && !c.dropped then s!" c{c.id}={hex8 c.lc.caps}" else "")
   s!" | x:{x} |{String.join st}"
 
-def finishOp (s : DS) (evs : List String) : DS × List String :=
+def finishOpNoPump (s : DS) (evs : List String) : DS × List String :=
   (s, [(if evs.isEmpty then "-" else " ".intercalate evs) ++ statusLine s])
+
+/-- every op ends with the server's event loop: a connection whose peer is gone is noticed (read of
+0 bytes) and closed, if a failed write has not closed it already -/
+def finishOp (s : DS) (evs : List String) : DS × List String :=
+  let s' := { s with conns := s.conns.map fun c =>
+    if c.cl.peerGone && c.cl.isOpen && hasServerSide c then { c with cl := closeCl c.cl } else c }
+  finishOpNoPump s' evs
 
 /-- deliver the messages the server wrote to each connection: reference peers see them (`tx`),
 library clients run their message loop.  Returns (state, client-side events, tx events). -/
@@ -183,13 +191,14 @@ def dstep (s : DS) (toks : List String) : DS × List String :=
     match s.blob b with
     | none => badOp s
     | some t =>
-      let outs := s.conns.filter hasServerSide |>.map fun c => (c.id, sendClassicOne c.cl t)
-      let (s1, cev, tx) := deliver s outs
+      let rs := s.conns.filter hasServerSide |>.map fun c => (c, writeOutcome c.cl (c.cl, sendClassicOne c.cl t))
+      let s0 := rs.foldl (fun s (p : Conn × Cl × List SMsg) => s.setConn { p.1 with cl := p.2.1 }) s
+      let (s1, cev, tx) := deliver s0 (rs.map fun p => (p.1.id, p.2.2))
       finishOp s1 (cev ++ tx)
   | ["pub8", b, f] =>
     match s.blob b, (if f == "null" then some none else (s.blob f).map some) with
     | some t, some fb =>
-      let rs := s.conns.filter hasServerSide |>.map fun c => (c, sendUtf8One c.cl t fb)
+      let rs := s.conns.filter hasServerSide |>.map fun c => (c, writeOutcome c.cl (sendUtf8One c.cl t fb))
       let s1 := rs.foldl (fun s (p : Conn × Cl × List SMsg) => s.setConn { p.1 with cl := p.2.1 }) s
       let (s2, cev, tx) := deliver s1 (rs.map fun p => (p.1.id, p.2.2))
       finishOp s2 (cev ++ tx)
@@ -202,6 +211,13 @@ def dstep (s : DS) (toks : List String) : DS × List String :=
         if id ≥ 16 || (s.conn id).isSome then badOp s else
         finishOp { s with conns := insertConn { id := id, kind := if k == "raw" then .raw else .rawpre,
                                                 cl := { normal := k == "raw" } } s.conns } []
+      else if k == "kill" then
+        match s.conn id with
+        | some c =>
+          if (c.kind == .raw || c.kind == .rawpre) && !c.dropped then
+            finishOpNoPump (s.setConn { c with cl := { c.cl with peerGone := true }, dropped := true }) []
+          else badOp s
+        | none => badOp s
       else if k == "close" then
         match s.conn id with
         | some c =>
@@ -216,8 +232,9 @@ def dstep (s : DS) (toks : List String) : DS × List String :=
     | some id =>
       if k == "lib" || k == "fsrv" then
         if id ≥ 16 || (s.conn id).isSome then badOp s else
-        let u := a != "0"
-        let c : Conn := { id := id, kind := if k == "lib" then .lib else .fsrv, lc := ⟨true, u, 0⟩ }
+        let av := a.toNat?.getD 0
+        let u := av % 2 == 1
+        let c : Conn := { id := id, kind := if k == "lib" then .lib else .fsrv, lc := ⟨av / 2 % 2 == 0, u, 0⟩ }
         let s1 := { s with conns := insertConn c s.conns }
         if k == "lib" && u then
           serverInput s1 c [] ([2, 0, 0, 1] ++ be32 encExtendedClipboard)
@@ -231,7 +248,16 @@ def dstep (s : DS) (toks : List String) : DS × List String :=
           else badOp s
         else if k == "send" then
           match s.blob a with
-          | some b => if c.kind == .raw && srvOpen c then serverInput s c [] b else badOp s
+          | some b => if c.kind == .raw && srvOpen c && !c.dropped then serverInput s c [] b else badOp s
+          | none => badOp s
+        else if k == "senddie" then
+          match s.blob a with
+          | some b =>
+            if c.kind == .raw && srvOpen c && !c.dropped then
+              let r := feedGone (mkZ s.ztab) env0 s.cfg c.cl b
+              let cbs := r.cbs.map (showCb c.id) ++ (if r.unmodelled then ["unmodelled"] else [])
+              finishOp (s.setConn { c with cl := r.cl, dropped := true }) cbs
+            else badOp s
           | none => badOp s
         else if k == "csend" || k == "csend8" then
           match s.blob a with
